@@ -6,14 +6,14 @@ import (
 )
 
 //verif:pkg ./xtime
-// VerifSleepContext args: context kind (0 none, 1 deadline, 2 already cancelled, 3 cancelled concurrently, 4 deadline + concurrent cancel)
-//verif:case C20 quick VerifSleepContext 0..4 @arith=1 @noreplay=1
+// VerifSleepContext args: context kind (0 none, 1 deadline, 2 already cancelled, 3 cancelled concurrently, 4 deadline + concurrent cancel, 5 deadline + already cancelled)
+//verif:case C20 quick VerifSleepContext 0..5 @arith=1 @noreplay=1
 // VerifJitterTicker args: ticks to read, scenario (0 plain+Stop, 1 Reset then tick, 2 Stop racing a firing timer)
 //verif:case C20 quick VerifJitterTicker 1 0..2 @fires=2 @arith=1 @noreplay=1
 //verif:case C20 thorough VerifJitterTicker 2 0 @fires=3 @arith=1 @noreplay=1
 //verif:case C20 thorough VerifJitterTicker 2 1..2 @fires=3 @arith=1 @noreplay=1
 //verif:case C20 thorough VerifJitterTicker 3 0 @fires=4 @arith=1 @noreplay=1
-//verif:case C20 quick VerifJitterArgs 0..2 @arith=1 @noreplay=1
+//verif:case C20 quick VerifJitterArgs 0..2 @arith=1 @noreplay=1 @fires=1
 
 // VerifSleepContext: d, the deadline and the clock are symbolic 64-bit values.
 func VerifSleepContext(kind int) {
@@ -23,9 +23,9 @@ func VerifSleepContext(kind int) {
 	ctx := context.Background()
 	var cancel context.CancelFunc = func() {}
 	r := time.Duration(vNondetInt("untilDeadline"))
-	hasDeadline := kind == 1 || kind == 4
+	hasDeadline := kind == 1 || kind == 4 || kind == 5
 	switch kind {
-	case 1, 4:
+	case 1, 4, 5:
 		vAssume(vAnd(r > -(1<<40), r < 1<<59))
 		ctx, cancel = context.WithDeadline(ctx, t0.Add(r))
 	case 2:
@@ -33,6 +33,10 @@ func VerifSleepContext(kind int) {
 		cancel()
 	case 3:
 		ctx, cancel = context.WithCancel(ctx)
+	}
+	if kind == 5 {
+		// a deadline (possibly far beyond d) and a context that has been cancelled before the call
+		cancel()
 	}
 	if kind == 3 || kind == 4 {
 		go func() { cancel() }()
@@ -243,4 +247,74 @@ func VerifJitterArm(scenario int) {
 	}
 	t.Stop()
 	vCover("ticker-arm")
+}
+
+// VerifSleepCancelled: "returns the context's error if the context ends first", under the
+// discrete-event reading of the time model (@prompt=1: computation takes no time, the clock moves
+// only when everybody is blocked, to the earliest due timer) - in the general model a goroutine may
+// be descheduled for longer than d between arming the timer and the select, and then both arms are
+// ready whatever ended first. The context is cancelled c after the call started (c symbolic), or
+// has been cancelled before the call; it has no deadline, or one that is at least d away.
+// c < d: the context's error, at c; c > d: nil, at d; already cancelled: the context's error at once.
+// args: deadline (0 none, 1 at least d away), cancellation (0 after c, 1 before the call)
+//verif:case C20 quick VerifSleepCancelled 0..1 0..1 @prompt=1 @arith=1 @noreplay=1 @fires=4
+func VerifSleepCancelled(withDeadline int, before int) {
+	d := time.Duration(vNondetInt("d"))
+	c := time.Duration(vNondetInt("c"))
+	vAssume(vAnd(vAnd(d > 0, d < 1<<40), vAnd(c >= 0, c < 1<<40)))
+	t0 := time.Now()
+	ctx, cancel := context.WithCancel(context.Background())
+	if withDeadline == 1 {
+		r := time.Duration(vNondetInt("untilDeadline"))
+		vAssume(vAnd(r >= d, r < 1<<41))
+		ctx, cancel = context.WithDeadline(context.Background(), t0.Add(r))
+		vAssume(vOr(before == 1, r > c)) // the cancellation, not the deadline, is what ends the context
+	}
+	if before == 1 {
+		cancel()
+	} else {
+		go func() {
+			time.Sleep(c)
+			cancel()
+		}()
+	}
+	err := SleepContext(ctx, d)
+	el := time.Since(t0)
+	if before == 1 {
+		vAssert(err == context.Canceled, "sleep/already-cancelled-context-returns-its-error")
+		vAssert(el == 0, "sleep/already-cancelled-context-returns-at-once")
+	} else {
+		vAssert(vImplies(c < d, err == context.Canceled), "sleep/context-that-ends-first-is-not-slept-through")
+		vAssert(vImplies(c < d, el == c), "sleep/returns-when-the-context-ends")
+		vAssert(vImplies(c > d, err == nil), "sleep/nil-when-the-sleep-ends-first")
+		vAssert(vImplies(err == nil, el == d), "sleep/nil-exactly-when-d-has-elapsed")
+	}
+	cancel()
+	vCover("sleep-cancelled")
+}
+
+// VerifTickersConcurrent: tickers are independent objects; creating, resetting and stopping two
+// of them from two goroutines (with jitter > 0, so that the random offset is drawn) is free of
+// data races and panics. (The happens-before check covers the library's plain accesses and
+// calls on an unsynchronised *rand.Rand; a report is replayed under the Go race detector.)
+//verif:case C20 quick VerifTickersConcurrent @arith=1 @fires=0 @race=1
+func VerifTickersConcurrent() {
+	d := time.Duration(vNondetInt("d"))
+	j := time.Duration(vNondetInt("jitter"))
+	vAssume(vAnd(d > 1<<30, vAnd(0 < j, j < d))) // (no tick is read: @fires=0)
+	vAssume(d < 1<<59)
+	done := 0
+	for g := 0; g < 2; g++ {
+		go func() {
+			p := vTry(func() {
+				t := NewJitterTicker(d, j)
+				t.Reset(d, j)
+				t.Stop()
+			})
+			vAssert(!p, "ticker/no-panic-for-documented-arguments")
+			vAtomic(func() { done++ })
+		}()
+	}
+	vAwait(func() bool { return done == 2 })
+	vCover("tickers-concurrent")
 }
